@@ -25,6 +25,7 @@ from liquid2.ast import PartialScope
 from liquid2.builtin import Identifier
 from liquid2.builtin import StringLiteral
 from liquid2.builtin import parse_string_or_identifier
+from liquid2.exceptions import LiquidError
 from liquid2.exceptions import LiquidSyntaxError
 from liquid2.exceptions import RequiredBlockError
 from liquid2.exceptions import StopRender
@@ -214,7 +215,7 @@ class BlockNode(Node):
         if stack_item.required:
             raise RequiredBlockError(
                 f"block {self.name!r} must be overridden",
-                token=self.token,
+                token=stack_item.token,
                 template_name=stack_item.source_name,
             )
 
@@ -240,7 +241,11 @@ class BlockNode(Node):
         # where the block's loops and variables count towards resource limits.
         block_drop.context = ctx
 
-        return stack_item.block.block.render(ctx, buffer)
+        try:
+            return stack_item.block.block.render(ctx, buffer)
+        except LiquidError as err:
+            _name_block_error(err, stack_item)
+            raise
 
     async def render_to_output_async(
         self, context: RenderContext, buffer: TextIO
@@ -275,7 +280,7 @@ class BlockNode(Node):
         if stack_item.required:
             raise RequiredBlockError(
                 f"block {self.name!r} must be overridden",
-                token=self.token,
+                token=stack_item.token,
                 template_name=stack_item.source_name,
             )
 
@@ -300,7 +305,11 @@ class BlockNode(Node):
         # `block.super` is part of this block. It renders in the block's context,
         # where the block's loops and variables count towards resource limits.
         block_drop.context = ctx
-        return await stack_item.block.block.render_async(ctx, buffer)
+        try:
+            return await stack_item.block.block.render_async(ctx, buffer)
+        except LiquidError as err:
+            _name_block_error(err, stack_item)
+            raise
 
     def children(
         self,
@@ -379,6 +388,19 @@ class _BlockStackItem:
     parent: _BlockStackItem | None = None
 
 
+def _name_block_error(err: LiquidError, stack_item: _BlockStackItem) -> None:
+    """Name the template an error in the text of a block comes from.
+
+    The block of a child template is rendered as part of its base template, which the
+    error would otherwise be attributed to, with line and column of the child's text.
+    """
+    token = err.token
+    if token is not None and getattr(token, "source", None) == getattr(
+        stack_item.token, "source", ""
+    ):
+        err.template_name = stack_item.source_name
+
+
 class BlockDrop(Mapping[str, object]):
     """A `block` object with a `super` property."""
 
@@ -423,7 +445,11 @@ class BlockDrop(Mapping[str, object]):
                 )
             }
         ):
-            self.parent.block.block.render(self.context, buf)
+            try:
+                self.parent.block.block.render(self.context, buf)
+            except LiquidError as err:
+                _name_block_error(err, self.parent)
+                raise
 
         if self.context.auto_escape:
             return Markupsafe(buf.getvalue())
